@@ -172,14 +172,38 @@ func (r *CheckRun) runNative(pkgDir string, jobs []*replayJob) error {
 		j.out = &no
 	}
 	if runErr != nil {
-		missing := 0
+		var missing []*replayJob
 		for _, j := range jobs {
 			if j.out == nil {
-				missing++
+				missing = append(missing, j)
 			}
 		}
-		if missing > 0 {
-			return fmt.Errorf("native run failed (%v), %d/%d witnesses without output:\n%s", runErr, missing, len(jobs), tail(outb.String(), 40))
+		if len(missing) > 0 && len(jobs) > 1 {
+			// one witness crashed the test binary (e.g. a deadlock in the bubble): run the
+			// ones without output one by one so a single crash cannot hide the others
+			if len(missing) > 40 {
+				missing = missing[:40]
+			}
+			for _, j := range missing {
+				b, err := os.ReadFile(j.wf)
+				if err != nil {
+					continue
+				}
+				keep := filepath.Join(os.TempDir(), fmt.Sprintf("gosmt-single-%d.witness.json", os.Getpid()))
+				os.WriteFile(keep, b, 0o644)
+				single := &replayJob{hr: j.hr, path: j.path, wf: keep}
+				err = r.runNative(pkgDir, []*replayJob{single})
+				os.Remove(keep)
+				if single.out != nil {
+					j.out = single.out
+				} else if err != nil {
+					j.err = "native run crashed: " + tail(err.Error(), 12)
+				}
+			}
+			return nil
+		}
+		if len(missing) > 0 {
+			return fmt.Errorf("native run failed (%v), %d/%d witnesses without output:\n%s", runErr, len(missing), len(jobs), tail(outb.String(), 40))
 		}
 	}
 	return nil
